@@ -17,6 +17,11 @@ def goenv():
     e.update(GOFLAGS="-mod=mod", GOPROXY="off", GOSUMDB="off", GOTOOLCHAIN="local",
              GOROOT=GOROOT, PATH=GOROOT + "/bin:" + e.get("PATH", ""))
     e.pop("GOTOOLDIR", None)
+    # Go 1.26 randomises the heap base address per process; pointer-keyed maps
+    # (nsqd keeps its client connections in a sync.Map keyed by net.Addr) would
+    # then iterate in a different order in every process. Switch it off for the
+    # simulation binaries so that one seed is one execution.
+    e["GOEXPERIMENT"] = "norandomizedheapbase64"
     return e
 
 def run(cmd, cwd=None, env=None, what=""):
